@@ -88,6 +88,7 @@ static int g_timeCalls = 0;
 
 static std::deque<std::pair<long, int> > g_wrScript;  // sequential: fwrite_unlocked results
 static int g_ferr = 0;
+static int g_errSeen = 0;    // ferror() was consulted and reported an error during the current op
 static int g_nflush = 0;
 
 static std::atomic<bool> g_forced(false);          // gates active
@@ -219,7 +220,8 @@ extern "C" size_t __wrap_fwrite_unlocked(const void* p, size_t sz, size_t n, FIL
 extern "C" int __wrap_ferror(FILE* fp)
 {
   if (g_log || fp == stdout || fp == stderr) return __real_ferror(fp);
-  return g_ferr ? 5 : __real_ferror(fp);
+  if (g_ferr) { g_errSeen = 1; return 5; }
+  return __real_ferror(fp);
 }
 
 extern "C" int __wrap_fflush(FILE* fp)
@@ -375,7 +377,7 @@ static void showSeq(const char* op, muduo::LogFile* lf)
 {
   printf("%s wb=%ld cnt=%d sop=%ld lr=%ld lf=%ld nfl=%d err=%d tc=%d\n", op,
          static_cast<long>(lf->file_->writtenBytes_), lf->count_, static_cast<long>(lf->startOfPeriod_),
-         static_cast<long>(lf->lastRoll_), static_cast<long>(lf->lastFlush_), g_nflush, g_ferr ? 1 : 0, g_timeCalls);
+         static_cast<long>(lf->lastRoll_), static_cast<long>(lf->lastFlush_), g_nflush, g_errSeen ? 1 : 0, g_timeCalls);
 }
 
 static void runSeq(const std::vector<string>& hdr)
@@ -392,6 +394,7 @@ static void runSeq(const std::vector<string>& hdr)
   g_timeCalls = 0;
   g_nflush = 0;
   g_ferr = 0;
+  g_errSeen = 0;
   std::unique_ptr<muduo::LogFile> lf(new muduo::LogFile("c16log", roll, false, flush, every));
   showSeq(("case " + hdr[1]).c_str(), lf.get());
   string line;
@@ -401,6 +404,8 @@ static void runSeq(const std::vector<string>& hdr)
     if (w.empty()) continue;
     if (w[0] == "end") break;
     g_timeCalls = 0;
+    g_errSeen = 0;
+    g_ferr = 0;
     if (w[0] == "A" && w.size() >= 5)
     {
       string d = vh::bytesOfSpec(w[1]);
@@ -666,7 +671,12 @@ static void runAsync(const std::vector<string>& hdr, bool freeMode)
       }
       else if (w[0] == "J")
       {
-        if (!stopStarted) { pthread_create(&stopper, NULL, stopperMain, NULL); stopStarted = true; }
+        if (!stopStarted)
+        {
+          pthread_create(&stopper, NULL, stopperMain, NULL);
+          stopStarted = true;
+          while (g_log->running_.load()) sched_yield();   // J without S = S ; J (deterministic)
+        }
         openAllGates();
         pthread_join(stopper, NULL);
         joined = true;
